@@ -83,13 +83,8 @@ theorem lpar_pol (hk : LParK h j) :
           left
           exact ⟨c, hcm, by rw [hcp, ← hq0, hqq], hco, by rw [hcp, ← hq0]; exact hfs'⟩
     · intro hne
-      have hord : ∀ p ∈ j.pods.map (·.pod), p.ord < maxInt32 := by
-        intro p hp
-        rw [List.mem_map] at hp
-        obtain ⟨c, hc, rfl⟩ := hp
-        exact (hn.pods c hc).2.2.2.2.2.1
       have hb := recon_par_cur_le hctx j.view hn.curRev.name hn.updRev.name (replicasOf j.view) hn.spec.rep hn.spec.r0 hpar
-        hn.spec.del (bOf_le hn) hord
+        hn.spec.del
       have hkeys := reps_keys j.view hn.curRev.name hn.updRev.name (bOf j) (EOf j) (j.pods.map (·.pod))
       have hwb := walk_bound_list j.view hn.curRev.name hn.updRev.name
         ((repsOf j.view hn.curRev.name hn.updRev.name (bOf j) (EOf j) (j.pods.map (·.pod))).map
